@@ -211,6 +211,69 @@ class Campaign:
             self.account(res)
         return results
 
+    # -------------------------------------------------------------- component drivers (same build)
+    def driver_phase(self, runs):
+        """runs: [{driver, args(trace)->list, spec, cfg, label}]; results are folded into this campaign"""
+        def one(run):
+            tr = os.path.join(self.scr, "t_%s.ndjson" % run["label"])
+            rc, out = vlib.sh([os.path.join(self.bdir, run["driver"])] + [str(a) for a in run["args"](tr)], timeout=run.get("timeout", 300))
+            if rc != 0:
+                return {"run": run, "verdict": "machinery", "why": "driver rc=%d %s" % (rc, out[-300:]), "trace": tr}
+            v = vlib.validate_trace(run["spec"], run["cfg"], tr, timeout=run.get("tlc_timeout", 1500))
+            return {"run": run, "verdict": v["verdict"], "v": v, "trace": tr}
+        n_lines = 0
+        import re as _re
+        for res in vlib.pmap(one, runs):
+            self.stats["serial_traces"] += 1
+            v = res.get("v")
+            if v:
+                self.stats["states"] += v["distinct"]
+                if v.get("res"):
+                    n_lines += v["res"]["reached"]
+                m = _re.search(r'"DIVERGENCES",\s*(\d+)', v["out"])
+                if m:
+                    self.stats["divergences"] = self.stats.get("divergences", 0) + int(m.group(1))
+            if res["verdict"] == "ok":
+                if len(self.samples) < 4:
+                    try:
+                        self.samples.append({"driver": res["run"]["driver"], "first_lines": open(res["trace"]).read(500).split("\n")[:3]})
+                    except Exception:
+                        pass
+                continue
+            if res["verdict"] == "bad":
+                b = v["res"]["bad"][0]
+                txt = ""
+                try:
+                    txt = open(res["trace"]).read().split("\n")[b["at"] - 1][:300]
+                except Exception:
+                    pass
+                rec = {"property": b["p"], "what": b["w"] + " | " + txt, "line": b["at"], "cfg": {"driver": res["run"]["driver"], "label": res["run"]["label"]},
+                       "model": (res["run"]["driver"], res["run"]["label"]), "trace": res["trace"], "md": {}}
+                if b["p"] == "DIV":
+                    self.machinery.append(rec)
+                elif b["p"] in self.own:
+                    self.violations.append(rec)
+                else:
+                    self.other.append(rec)
+            else:
+                self.machinery.append({"property": "?", "what": "%s: trace %s %s %s" % (res["run"]["label"], res["verdict"], res.get("why", ""),
+                                                                                      json.dumps((v or {}).get("res"))[:300])})
+        self.stats["driver_lines"] = self.stats.get("driver_lines", 0) + n_lines
+        return n_lines
+
+    def mc_phase(self, spec, cfg, label, **kw):
+        r = vlib.tlc(spec, cfg, extra=["-noGenerateSpecTE"], **kw)
+        self.stats.setdefault("mc", []).append({"spec": spec, "cfg": cfg, "what": label, "states": r["states"], "distinct": r["distinct"],
+                                                "depth": r["depth"], "violated": r["violated"], "error": r["error"], "timeout": r["timeout"],
+                                                "wall_s": round(r["wall"], 1)})
+        self.stats["states"] += r["distinct"]
+        if r["violated"]:
+            self.violations.append({"property": self.pid, "what": "TLC: %s violated in %s/%s (%s)" % (r["violated"], spec, cfg, label),
+                                    "line": 0, "cfg": {}, "model": (spec, cfg), "trace": None, "md": {}})
+        elif r["error"] or (r["timeout"] and not kw.get("ok_timeout")) or not r["distinct"]:
+            self.machinery.append({"property": self.pid, "what": "model checking of %s/%s failed: %s" % (spec, cfg, r["error"] or "timeout")})
+        return r
+
     # -------------------------------------------------------------- reporting
     def finish(self, level="model_checking", extra_cov=None, assumptions=None, rule=None):
         wall = time.time() - self.t0
@@ -227,7 +290,7 @@ class Campaign:
                 print("NOTE: known finding %s (property %s) was hit by runs of this check" % (f["id"], f["property"]))
         for v in self.violations:
             rp = vlib.save_replay(self.pid, "v%d" % (self.violations.index(v) + 1),
-                                  [v.get("trace"), v["md"].get("txt"), v["md"].get("model"), v["md"].get("ref")],
+                                  [v.get("trace"), v.get("md", {}).get("txt"), v.get("md", {}).get("model"), v.get("md", {}).get("ref")],
                                   {"property": v["property"], "what": v["what"], "line": v["line"], "cfg": v["cfg"],
                                    "model": v["model"], "replay": "lib/../check %s --replay <this dir>" % self.pid})
             print("VIOLATION property=%s replay=%s  (%s; trace line %s; model %s cfg %s)" % (
@@ -245,8 +308,8 @@ class Campaign:
         cov = {"states": max(1, self.stats["states"]), "transitions": max(1, self.stats["states"]),
                "traces_validated_against_impl": self.stats["serial_traces"] + self.stats["parallel_traces"],
                "samples": self.samples or [{"note": "no accepted run"}],
-               "evaluations": self.stats["parallel_traces"] + self.stats["serial_traces"],
-               "distinct_nontrivial": len(self.stats["distinct_cfg"]),
+               "evaluations": self.stats["parallel_traces"] + self.stats["serial_traces"] + self.stats.get("driver_lines", 0),
+               "distinct_nontrivial": len(self.stats["distinct_cfg"]) + self.stats.get("driver_lines", 0),
                "rule": rule or "generated table-driven models x (threads, checkpoint interval, batch, GVT period) x scheduler "
                                "seeds/policies; a case is distinct by (model, configuration, schedule seed) and non-trivial "
                                "when the validated trace contains at least one event execution",
@@ -254,6 +317,8 @@ class Campaign:
                "rollbacks_observed": self.stats["rollbacks"], "fossil_collections_observed": self.stats["fossils"],
                "gvt_values_observed": self.stats["gvts"], "anti_messages_observed": self.stats["antis"],
                "known_finding_hits": len(self.known), "other_property_failures": len(self.other),
+               "driver_lines_validated": self.stats.get("driver_lines", 0), "conformance_divergences": self.stats.get("divergences", 0),
+               "model_checking_runs": self.stats.get("mc", []),
                "exhaustive": False}
         if extra_cov:
             cov.update(extra_cov)
